@@ -92,6 +92,7 @@ type runner struct {
 	fcs       map[string]*lab.FaultClient // per node
 	acked     map[string]uint64           // db -> largest TXID the service held when it acknowledged an upload
 	svcDigest map[string]string           // service files after the previous event
+	viewOK    map[string]bool             // node/db -> the node's view of the service's position must be accurate: every answer and acknowledgement reached it and nobody touched the service since
 	svcPosPrev map[string]ltx.Pos         // service positions after the previous event (loop mode)
 	priPosPrev map[string]ltx.Pos         // primary positions after the previous event (loop mode)
 	priPrevName string
@@ -167,6 +168,7 @@ func (r *runner) setup() bool {
 		r.svc = lab.NewBackupSvc(filepath.Join(c.Base, "svc"))
 		r.fcs = map[string]*lab.FaultClient{}
 		r.acked = map[string]uint64{}
+		r.viewOK = map[string]bool{}
 		r.svcDigest = map[string]string{}
 		if r.cfg.BackupKind == "lfsc" {
 			c.Net.Register("lfsc", &lab.FakeLFSC{Svc: r.svc})
@@ -1141,7 +1143,19 @@ func (r *runner) attachBackup(cfg *lab.NodeConfig) {
 			if t := uint64(r.svc.Chain(db).Pos().TXID); t > r.acked[db] {
 				r.acked[db] = t
 			}
+			r.viewOK[name+"/"+db] = true
 		}
+		f.OnPosMap = func() {
+			for _, db := range []string{"a", "b"} {
+				r.viewOK[name+"/"+db] = true
+			}
+		}
+		f.OnFault = func(kind string) {
+			for _, db := range []string{"a", "b"} {
+				r.viewOK[name+"/"+db] = false
+			}
+		}
+		f.OnFetch = func(db string) { r.restoreJudged(name, db) }
 		r.fcs[name] = f
 		s.BackupClient = f
 		s.BackupDelay = 0 // the continuous monitor is off; sync events call Store.SyncBackup
@@ -1259,6 +1273,9 @@ func (r *runner) syncBackup(fault string) bool {
 
 // svcEvent mutates the service behind the primary's back.
 func (r *runner) svcEvent(kind, db string) bool {
+	for _, n := range r.c.Names() {
+		r.viewOK[n+"/"+db] = false
+	}
 	ch := r.svc.Chain(db)
 	if len(ch.Errors) > 0 {
 		return true
@@ -1457,4 +1474,46 @@ func (r *runner) loopCaughtUp(ev string) {
 			r.viol("C14/restored-image-differs", "%s: service and primary are both at %s but the database restored from the service differs from the primary's: %s", n, d.Pos(), diff)
 		}
 	}
+}
+
+
+// restoreJudged is called when node is about to fetch the service's snapshot of db, i.e. to discard its own
+// state for the service's. That is what the property asks for when the service is ahead, forked or cannot be
+// extended from the node's log. It is wrong when the service's position is a point of the node's own log from
+// which every later transaction file is still present AND the node had every reason to know it (all answers and
+// acknowledgements reached it, nobody changed the service behind its back): then only the node's own
+// bookkeeping of the service's position can have produced the mismatch, and committed transactions are thrown away.
+func (r *runner) restoreJudged(node, db string) {
+	n := r.c.Nodes[node]
+	if n == nil || !n.Running() || !r.viewOK[node+"/"+db] {
+		return
+	}
+	d := n.DB(db)
+	if d == nil || d.Pos().IsZero() {
+		return
+	}
+	svc := r.svc.Chain(db).Pos()
+	local := d.Pos()
+	if svc.IsZero() || svc.TXID >= local.TXID {
+		return
+	}
+	// Is the service's position a boundary of the node's log, with every later file present?
+	ch := oracle.CheckChain(d.LTXDir(), uint64(local.TXID), uint64(local.PostApplyChecksum))
+	if len(ch.Errors) > 0 {
+		return
+	}
+	onLog := false
+	for _, f := range ch.Files {
+		if f.Header.MaxTXID == svc.TXID && f.Trailer.PostApplyChecksum == svc.PostApplyChecksum {
+			onLog = true
+		}
+		if f.Header.MinTXID == svc.TXID+1 && f.Header.PreApplyChecksum == svc.PostApplyChecksum {
+			onLog = true
+		}
+	}
+	if !onLog {
+		return
+	}
+	r.viol("C14/restored-although-extendable", "%s discards its database %q at %s for the service's snapshot at %s although the service's position is a point of its own log with every later transaction file present, every upload so far was acknowledged to it and the service was not changed behind its back: the node's record of the service's position is wrong, and committed transactions are lost\nclient calls: %v",
+		node, db, local, svc, tailS(r.fcs[node].Calls, 12))
 }
